@@ -498,8 +498,47 @@ func partC11(a *hcli.Args, rep *report.Report, univName string, u *schema.Univer
 					}
 				}
 			}
+			// a receiver that already holds a member: decoding replaces it (the value is the one the document denotes)
+			for i, mi := range t.Members {
+				for j, mj := range t.Members {
+					if i == j {
+						continue
+					}
+					first := fmt.Sprintf("{%q:%s}", mi.Alias, refjson.Encode(schema.Base(mi.Type), nil))
+					second := fmt.Sprintf("{%q:%s}", mj.Alias, refjson.Encode(schema.Base(mj.Type), nil))
+					ptr, err := decodeDocInto(un, "json", first)
+					if err != nil {
+						continue
+					}
+					err = safeCall(func() error {
+						r, e := newReader("json", second)
+						if e != nil {
+							return e
+						}
+						return ptr.Interface().(restlicodec.Unmarshaler).UnmarshalRestLi(r)
+					})
+					su.Evaluations++
+					su.Transitions++
+					su.Traces++
+					cs := fmt.Sprintf("union %s: %s decoded into a value that held %s", un, second, first)
+					fresh, ferr := decodeDocInto(un, "json", second)
+					if ferr != nil {
+						continue
+					}
+					want, _ := encodeGo(fresh, "json")
+					got, eerr := encodeGo(ptr, "json")
+					switch {
+					case isPanic(err):
+						fail(su, "union decode-panic reused-receiver", fmt.Sprintf("%s: %v", cs, err), cs)
+					case err == nil && (eerr != nil || got != want):
+						fail(su, "union reused-receiver-keeps-old-member", fmt.Sprintf("%s: the value now encodes as %q (%v), a fresh value as %q", cs, got, eerr, want), cs)
+					default:
+						su.Class("ok:decode:reused-receiver")
+					}
+				}
+			}
 			// unknown member
-			for f, doc := range map[string]string{"json": `{"nope":1}`, "header": "(nope:1)"} {
+			for f, doc := range map[string]string{"json": `{"nope":1}`, "header": "(nope:1)", "untyped": `{"nope":1}`} {
 				_, err := decodeDocInto(un, f, doc)
 				su.Evaluations++
 				su.Transitions++
@@ -672,9 +711,9 @@ func partC11(a *hcli.Args, rep *report.Report, univName string, u *schema.Univer
 	}
 	// ---- partial updates
 	sp := rep.S("partial-updates")
-	sp.Bounds = "records P4, PWithInc, P2, PInner: every assignment of a subset of {delete, set, nested patch} to each field (nested patches: quick = a family of legal and illegal ones, thorough = every non-empty nested patch) x exclusion specs {none, one field, a nested field}; encode errors iff illegal, legal patches produce the reference patch / $set / $delete document and round-trip; decoding the reference document of an illegal patch errors"
+	sp.Bounds = "records P4, PWithInc, P2, PInner, PLeaf (includes two levels deep), POuterRec (record-typed field inherited through an include): every assignment of a subset of {delete, set, nested patch} to each field (nested patches: quick = a family of legal and illegal ones, thorough = every non-empty nested patch) x exclusion specs {none, one field, a nested field}; encode errors iff illegal, legal patches produce the reference patch / $set / $delete document and round-trip; decoding the reference document of an illegal patch errors"
 	item := 0
-	for _, rn := range []string{"P4", "PWithInc", "P2", "PInner"} {
+	for _, rn := range []string{"P4", "PWithInc", "P2", "PInner", "PLeaf", "POuterRec"} {
 		t := u.ByName[rn]
 		rt := Reg[rn+"_PartialUpdate"]
 		if rt == nil {
